@@ -159,6 +159,25 @@ def dot (a b : List Rat) : Rat := (List.zipWith (· * ·) a b).foldl (· + ·) 0
 def affine (C : List (List Rat)) (d : List Rat) (y : List Rat) : List Rat :=
   List.zipWith (· + ·) (C.map fun row => dot row y) d
 
+/-- the exact boundary of the absolute criterion on constant accumulation `y ↦ y + d` (`C15_accumulation_fails_iff`): the search
+fails iff the drift per step is at least the tolerance.  Evaluated by the driver: it is the class predicate of F-C15-4. -/
+def accAbsFails (tol : Rat) (d : List Rat) : Bool := decide (tol * tol ≤ normSq d)
+
+/-- the exact boundary of the relative criterion on ONE accumulating variable (`d > 0`, `y0 > 0`, budget `maxSteps`;
+`C15_rel_accumulation_fails_iff`): the search fails iff the relative step is still ≥ tol at the last comparison.  Evaluated by
+the driver: the class predicate of F-C15-2. -/
+def accRelFails (tol d y0 : Rat) (maxSteps : Nat) : Bool :=
+  decide (tol * (y0 + ((maxSteps - 1 : Nat) : Rat) * d) ≤ d)
+
+/-- constant accumulation: one search step adds `d` -/
+def accStep (d : List Rat) : List Rat → List Rat := fun y => List.zipWith (· + ·) y d
+
+/-- the exact boundary of the relative criterion on SEVERAL accumulating variables (all `d_i > 0`, `y_i > 0`;
+`C15_rel_accumulation_vec_fails_iff`): the relative step only shrinks, so the search fails iff the LAST comparison of the budget is
+not small.  Evaluated by the driver. -/
+def accRelVecFails (tol : Rat) (d y0 : List Rat) (maxSteps : Nat) : Bool :=
+  !smallRel tol (iter (accStep d) maxSteps y0) (iter (accStep d) (maxSteps - 1) y0)
+
 /-- exact flow over one step (100 time units) of dx/dt = x² (first component; finite-time blow-up at t = 1/x) next to
 relaxing components `z ↦ zs + (z − zs)·c`: x(t+100) = x / (1 − 100·x) while the singularity is not reached.  `[]`
 stands for a solver that has given up (no state to hand back). -/
